@@ -10,8 +10,8 @@ import (
 	"time"
 
 	"github.com/spf13/afero"
-	"github.com/yandex/pandora/components/providers/grpc/grpcjson"
 	grpcammo "github.com/yandex/pandora/components/providers/grpc"
+	"github.com/yandex/pandora/components/providers/grpc/grpcjson"
 	httpprovider "github.com/yandex/pandora/components/providers/http"
 	httpammo "github.com/yandex/pandora/components/providers/http/ammo"
 	"github.com/yandex/pandora/components/providers/http/config"
@@ -76,7 +76,7 @@ func driveProvider(p core.Provider, entryOf func(a core.Ammo, ok bool) (string, 
 		runDone <- errClass(err)
 	}()
 	type acq struct {
-		entries []string
+		entries  []string
 		panicked bool
 	}
 	acqDone := make(chan acq, 1)
